@@ -9,6 +9,7 @@ GenRec  == [src |-> src,  pc |-> pc,  slot |-> slot,  wholder |-> wholder, wdata
 GenRecP == [src |-> src', pc |-> pc', slot |-> slot', wholder |-> wholder', wdata |-> wdata',
             res |-> res', inmap |-> inmap', img |-> Len(img'), nintr |-> nintr', nstore |-> Cardinality(DOMAIN store')]
 
-GenInit == Init /\ PrintT("VINIT " \o ToJson(GenRec))
+\* conversions are symmetric: only ordered source pairs are generated
+GenInit == Init /\ (\A c \in 1..(NConv-1) : src[c].blob <= src[c+1].blob) /\ PrintT("VINIT " \o ToJson(GenRec))
 GenNext == Next /\ PrintT("VEDGE " \o ToJson([from |-> GenRec, last |-> last', to |-> GenRecP]))
 =============================================================================
